@@ -71,7 +71,7 @@ class VUnit:
 
     def fn(self, file, name, impl=None, nth=0, ret=None, requires=(), ensures=(), loops=None, inserts=(),
            rules=(), subst=(), sig_subst=(), external_body=False, canary=True, rename=None, ret_type=None,
-           attrs='', body_override=None, decreases=None, opens_invariants=None, no_unwind=False, returns=None, post=(), opt_inserts=(), resubst=()):
+           attrs='', body_override=None, decreases=None, opens_invariants=None, no_unwind=False, returns=None, post=(), opt_inserts=(), resubst=(), d5=None, sig_override=None):
         """extract `fn name` and splice the contract. `rules`: names of rsx.rule_* to apply to the body.
         `subst`: [(literal, replacement, rulename)] literal body substitutions (each must match, logged as a rule).
         `loops`: {ordinal: 'invariant ..., decreases ..'} ; `inserts`: [(anchor, before|after|replace, text)]"""
@@ -81,6 +81,13 @@ class VUnit:
         fired = []
         body = rsx.strip_comments(body)
         body = rsx.drop_attrs_in_body(body)
+        if d5:
+            # rule D5: loop-body / continuation split of `for PAT in <opaque IntoIterator> { B } REST`
+            pat, itn, lb, rest = rsx.split_first_for(body)
+            body = lb if d5 == 'step' else rest
+            fired.append('D5-%s (for %s in %s)' % (d5, pat, itn))
+        if sig_override:
+            sig = sig_override
         for r in rules:
             fnr = getattr(rsx, 'rule_' + r)
             body, n = fnr(body)
